@@ -81,7 +81,7 @@ def analyse(case, res):
             if mm and float(mm.group(1)) < 1e-9:
                 noise.append((tt, m))
         slow = [x for x in slow if x not in noise]
-        if res.outcome == "exception" and res.exc_type == "RuntimeError" and durs_zero and t0 is not None:
+        if res.outcome == "exception" and res.is_a("RuntimeError") and durs_zero and t0 is not None:
             ends = [(res.trace.t[i] - t0, e) for i, e in enumerate(res.trace) if e[0] == "step_end"]
             last_begin = [e for e in res.trace if e[0] == "step_begin"][-1]
             if ends and abs(ends[-1][0] - period * last_begin[2]) < 1e-9:
@@ -89,7 +89,8 @@ def analyse(case, res):
     if res.outcome in ("deadlock", "livelock", "runaway"):
         fails.append(Failure("C17.internal_error", f"C17.internal_error|{res.outcome}", f"real-time run ended in {res.outcome}"))
     elif res.outcome == "exception":
-        if res.exc_type == "RuntimeError" and "too slow" in (res.exc_msg or ""):
+        # the statement fixes the type (RuntimeError) of the strict report, not its wording
+        if res.is_a("RuntimeError") and (run.get("rt_strict") or "too slow" in (res.exc_msg or "")):
             if not run.get("rt_strict"):
                 fails.append(Failure("C17.strict", "C17.strict|raised_without_strict", "RuntimeError without rt_strict"))
             elif durs_zero:
@@ -148,7 +149,7 @@ def analyse(case, res):
                 fails.append(Failure("C17.strict", "C17.strict|differs_without_report",
                                      f"no too-slow report, but the rt_strict run: {r2.outcome} {r2.exc_type} {r2.exc_msg}"))
         else:
-            if not (r2.outcome == "exception" and r2.exc_type == "RuntimeError"):
+            if not (r2.outcome == "exception" and r2.is_a("RuntimeError")):
                 fails.append(Failure("C17.strict", "C17.strict|no_runtime_error",
                                      f"the non-strict run reports too slow, the rt_strict run ended with {r2.outcome} {r2.exc_type}"))
             else:
